@@ -7,7 +7,9 @@ bad=0
 for d in seeded/*${1:-}*/; do
   n=$(basename $d); id=$(python3 -c "import json;print(json.load(open('$d/meta.json'))['property'])")
   git -C /repo apply /verif/${d}patch.diff || { echo "$n: patch does not apply"; bad=1; continue; }
+  [ -f evidence/$id.json ] && cp evidence/$id.json /root/scratch/evidence_keep_$id.json
   s=$(date +%s); out=$(./check $id 2>&1); rc=$?; e=$(date +%s)
+  [ -f /root/scratch/evidence_keep_$id.json ] && mv /root/scratch/evidence_keep_$id.json evidence/$id.json
   git -C /repo checkout -- .
   v=$(echo "$out" | grep -c "^VIOLATION")
   if [ $rc -eq 1 ] && [ $v -gt 0 ]; then echo "caught  $n ($id, $v violation lines, $((e-s))s)"; else echo "MISSED  $n ($id rc=$rc)"; bad=1; fi
